@@ -40,7 +40,7 @@ theorem far_same {f : Forest} {keep : Keep} {q : Nat} {vq : Value} {l : List HTr
   have sY : SiteAt (f.editAt (some q) (dropTop t.handle)) q vq (l ++ r) := by
     have := sq.edit (dropTop t.handle) (by
       rw [hdrop]
-      simp only [handlesList_append, handlesList_cons]
+      simp only [fs_handlesList_append, handlesList_cons]
       exact (List.Sublist.refl _).append (List.sublist_append_right _ _))
     rw [hdrop] at this
     exact this
@@ -101,9 +101,9 @@ theorem far_same {f : Forest} {keep : Keep} {q : Nat} {vq : Value} {l : List HTr
     have hqt : q ∉ handles t := by
       intro hin
       apply sq.nodupKids.2
-      rw [handlesList_append, handlesList_cons]
+      rw [fs_handlesList_append, handlesList_cons]
       exact List.mem_append_right _ (List.mem_append_left _ hin)
-    have hcq : t.handle ≠ q := fun e => hqt (e ▸ handle_mem_handles t)
+    have hcq : t.handle ≠ q := fun e => hqt (e ▸ fs_handle_mem_handles t)
     have hZget : (f.editAt (some q) S).get? t.handle = some t := by
       rw [Forest.get?_editAt_other hcq nd (by
         intro v' L' _
@@ -162,8 +162,8 @@ theorem view_without {f : Forest} {q : Nat} {vq : Value} {l : List HTree} {t : H
     | inr h => exact List.mem_append_right _ (List.mem_cons_of_mem _ h)
   refine ⟨fun k hk => V.get k (hsubset k hk), fun k hk => V.leaf k (hsubset k hk), ?_, ?_⟩
   · have := V.nd
-    rw [handlesList_append, handlesList_cons] at this
-    rw [handlesList_append]
+    rw [fs_handlesList_append, handlesList_cons] at this
+    rw [fs_handlesList_append]
     exact ((List.Sublist.refl _).append (List.sublist_append_right _ _)).nodup this
   · intro hc
     obtain ⟨hl, hkr, _⟩ := noAdj_append.1 (V.noadj hc)
@@ -194,7 +194,7 @@ theorem insertAfter_same_nomerge {f : Forest} {q : Nat} {vq : Value} {l : List H
   have hqt : q ∉ handles t := by
     intro hin
     apply so.nodupKids.2
-    rw [handlesList_append, handlesList_cons]
+    rw [fs_handlesList_append, handlesList_cons]
     exact List.mem_append_right _ (List.mem_append_left _ hin)
   have hnext : f.nextSibling kr.handle = nextOf B kr := Forest.nextSibling_of_ctx sq.ctx
   have Vlr := view_without inv norm so hseam
@@ -264,7 +264,7 @@ theorem insertAfter_same_merged {f : Forest} {q : Nat} {vq : Value} {l' : List H
   have hqt : q ∉ handles t := by
     intro hin
     apply so.nodupKids.2
-    rw [handlesList_append, handlesList_cons]
+    rw [fs_handlesList_append, handlesList_cons]
     exact List.mem_append_right _ (List.mem_append_left _ hin)
   obtain ⟨ndL, _⟩ := so.nodupKids
   obtain ⟨tl, tr⟩ := tops_ne_of_nodup ndL
@@ -289,7 +289,7 @@ theorem insertAfter_same_merged {f : Forest} {q : Nat} {vq : Value} {l' : List H
   let a' := a.setValue (.text (x ++ y))
   have sX : SiteAt (f.editAt (some q) (fun _ => l' ++ a' :: t :: r')) q vq ((l' ++ [a']) ++ t :: r') := by
     have := so.edit (fun _ => l' ++ a' :: t :: r') (by
-      simp only [a', handlesList_append, handlesList_cons, setValue_handles, handlesList_nil, List.append_nil,
+      simp only [a', fs_handlesList_append, handlesList_cons, setValue_handles, handlesList_nil, List.append_nil,
         List.append_assoc]
       refine (List.Sublist.refl _).append ((List.Sublist.refl _).append ((List.Sublist.refl _).append ?_))
       exact List.sublist_append_right _ _)
@@ -314,7 +314,7 @@ theorem insertAfter_same_merged {f : Forest} {q : Nat} {vq : Value} {l' : List H
     rw [this, dropTop_mid rfl tlX trX]
   have sYm : SiteAt (f.editAt (some q) (fun _ => (l' ++ [a']) ++ r')) q vq ((l' ++ [a']) ++ r') := by
     have := so.edit (fun _ => (l' ++ [a']) ++ r') (by
-      simp only [a', handlesList_append, handlesList_cons, setValue_handles, handlesList_nil, List.append_nil,
+      simp only [a', fs_handlesList_append, handlesList_cons, setValue_handles, handlesList_nil, List.append_nil,
         List.append_assoc]
       refine (List.Sublist.refl _).append ((List.Sublist.refl _).append ?_)
       exact (List.sublist_append_right _ _).trans (List.sublist_append_right _ _))
